@@ -43,3 +43,53 @@ entry("C09", True, "model_checking",
       "bounded episodes of the model of the current code; every explored real execution ends idle/inactive with nothing in "
       "flight, no consistency check tripped, no loop exception, event-loop thread never blocked, and a probe send succeeds "
       "(clauses C09a-d).", _QOS_NOTE, _QOS_TECH, "DESIGN.md §4 C07-C09")
+
+_TBL_NOTE = ("Trusted: the ~10-line table dumpers / run-length encoder in the harness; TLC evaluating the spec operators; "
+             "strings are sampled systematically (bounds in the evidence file), integer grids are exhaustive. "
+             "The spec is thin here (DESIGN.md §6): TLA+ supplies the structured input space and the oracle as executable "
+             "mathematics on integers and sequences; it does not reason about floating point, zlib or regex semantics.")
+entry("C02", True, "translation_validation",
+      "Frame text round-trips: TLC model-checks the print/parse laws of spec/FrameGrammar.tla over the whole abstract cross "
+      "product (verbs x seqn x three legal address-set shapes x codes x lengths) and the write->replay identity of spec/PktLog.tla; "
+      "the cross product is concretised (all device types, payload lengths 1..48) and run through the real Command / Packet / "
+      "from_cli constructors and the real packet logger + FileTransport; every outcome row / session is validated by TLC.",
+      _TBL_NOTE, "TLC model checking of the frame grammar + TLC table/trace validation of the real constructors and log replay",
+      "DESIGN.md §4 C02")
+entry("C03", True, "translation_validation",
+      "Every constructor of the API map x argument class enumerated from spec/CmdApi.tla (decision tables for mode/until/duration, "
+      "fragment numbering, bind dispatch, per-argument domains) is passed to the real constructor and the library's own decoder; "
+      "TLC validates each row against clauses a-d (verb/code = map key, decoder accepts, values carried to wire resolution, "
+      "out-of-domain arguments never yield a harmful frame).",
+      _TBL_NOTE + " In-domain is read off the constructors' own checks/docstrings (J6).",
+      "TLC-checked decision tables (spec/CmdApi.tla) + TLC table validation of real constructor/decoder outcomes", "DESIGN.md §4 C03")
+entry("C04", True, "translation_validation",
+      "Full I/O tables of the real scalar codecs (65,536 temperature words, all k/100 temperatures, 256 bytes x both percent "
+      "resolutions, flag bytes, covering date/time sets incl. leap days and the DST bit, packed timestamps, all 2^24 device ids as "
+      "run-length tables, schedule set-points) are validated row by row by TLC against the integer-grid codecs of "
+      "spec/WireCodec.tla, whose inverse/sentinel/range laws TLC checks on the full grids.",
+      _TBL_NOTE, "TLC model checking of integer-grid codec laws + TLC table validation of exhaustive tables of the real helpers",
+      "DESIGN.md §4 C04")
+entry("C06", True, "model_checking",
+      "Echo/reply/near-miss relation of spec/Correlate.tla (header families incl. 0005/000C, 0404, 0418 null entry, 3220, 1FC9) is "
+      "checked by TLC on all families x contexts x near-miss dimensions; every scenario is concretised and executed on the real "
+      "Command/Packet headers and through the real PortProtocol.send_cmd (which packet is returned), plus the RQ/RP exchanges of "
+      "the shipped logs; TLC validates every row.",
+      "Trusted: harness FakeTransport/VLoop; payload templates for codes without a public constructor. Open dimensions (requester of "
+      "a look-alike echo, addressee of a look-alike reply) are recorded, not judged.",
+      "TLC model checking of the correlation relation + TLC validation of real header / send_cmd outcomes", "DESIGN.md §4 C06")
+entry("C17", True, "model_checking",
+      "Fragment reassembly (Schedule._update_payload_set) is transcribed in spec/SchedFrags.tla; TLC checks 'same schedule or none, "
+      "never a mix' for all orders/duplicates/versions and two zones sharing the default payload set; every transition of the TLC "
+      "state graph is replayed on real Schedule objects with real 0404 packets (drift check) and the clauses are evaluated by TLC on "
+      "the recorded real histories; the codec half (schedule -> fragments -> schedule, fragment size, write commands decodable) is a "
+      "TLC-validated table over all set-points, all 288 times, zones 00-0B and DHW.",
+      "Assumes zlib's checksum rejects a mix of fragments of different versions (stated in DESIGN.md §6). Bounds: <=3 fragments, 2 versions, 2 zones.",
+      "TLC model checking + per-transition conformance replay on the real Schedule + TLC trace/table validation", "DESIGN.md §4 C17")
+entry("C19", True, "model_checking",
+      "FaultLog._insert_into_map/_process_msg are transcribed expression by expression in spec/FaultLog.tla with a simulated "
+      "controller log; TLC checks order / no-duplicate / subset / convergence-after-read-through / announcement-shift for all "
+      "histories within bounds; every transition of the TLC state graph is replayed on the real FaultLog object with real 0418 "
+      "messages (map compared = drift check), whole-Gateway runs cross-check the stub, and the property clauses are evaluated by TLC "
+      "on the recorded public views of the real histories.",
+      "Bounds: controller depth <=4 (quick) / 5 (thorough), <=7 events exhaustively; deeper histories (64-deep log) are sampled.",
+      "TLC model checking + per-transition conformance replay on the real FaultLog + TLC trace validation", "DESIGN.md §4 C19")
